@@ -1,6 +1,7 @@
 SPECIFICATION Spec
 CONSTANTS
   WorkerCpus <- D_Workers
+  WorkerGroup <- D_Groups
   Menu <- D_Menu
   Classes <- D_Classes
   MaxLosses = 0
@@ -40,5 +41,7 @@ INVARIANTS
   C13_CompletedOnce
   C14_AbortAllOnExceed
   C14_ExceededStopped
+  C05_MnExclusive
+  C05_MnWorkersIdle
 PROPERTIES
   StepProps
